@@ -57,14 +57,144 @@ macro_rules! law {
 }
 pub(crate) use law;
 
-/// Both hashers: the engine's FNV and std's SipHash with its fixed keys.
-pub(crate) fn h2<T: Hash + ?Sized>(x: &T) -> (u64, u64) {
+/// A hasher for which the *sequence of calls* matters, not only the
+/// concatenated octet stream: every call mixes in a tag for the method and
+/// the length of its argument before the octets. `write_u8(x)` is therefore
+/// different from `write(&[x])`, and `write(ab)` from `write(a); write(b)`.
+///
+/// This is what the documentation of `std::hash::Hasher` allows a hasher to
+/// do (no guarantee that `write_u32` equals four `write_u8`, nor that
+/// adjacent `write` calls are merged; `Hash` implementations must make, for
+/// equivalent items, exactly the same sequence of calls: same methods, same
+/// parameters, same order) and what word-at-a-time hashers (FxHash, aHash,
+/// foldhash = hashbrown's default) do in practice. SipHash and FNV are pure
+/// octet-stream hashers and cannot see the difference.
+#[derive(Clone)]
+pub(crate) struct CallSeqHasher(u64);
+
+impl Default for CallSeqHasher {
+    fn default() -> Self {
+        CallSeqHasher(0xcbf2_9ce4_8422_2325)
+    }
+}
+
+impl CallSeqHasher {
+    fn mix(&mut self, b: u8) {
+        self.0 ^= u64::from(b);
+        self.0 = self.0.wrapping_mul(0x0000_0100_0000_01b3);
+    }
+    fn call(&mut self, tag: u8, bytes: &[u8]) {
+        self.mix(tag);
+        for b in (bytes.len() as u64).to_le_bytes() {
+            self.mix(b);
+        }
+        for &b in bytes {
+            self.mix(b);
+        }
+    }
+}
+
+impl Hasher for CallSeqHasher {
+    fn write(&mut self, bytes: &[u8]) {
+        self.call(0xA0, bytes)
+    }
+    fn write_u8(&mut self, i: u8) {
+        self.call(0xA1, &[i])
+    }
+    fn write_u16(&mut self, i: u16) {
+        self.call(0xA2, &i.to_le_bytes())
+    }
+    fn write_u32(&mut self, i: u32) {
+        self.call(0xA3, &i.to_le_bytes())
+    }
+    fn write_u64(&mut self, i: u64) {
+        self.call(0xA4, &i.to_le_bytes())
+    }
+    fn write_u128(&mut self, i: u128) {
+        self.call(0xA5, &i.to_le_bytes())
+    }
+    fn write_usize(&mut self, i: usize) {
+        self.call(0xA6, &(i as u64).to_le_bytes())
+    }
+    fn finish(&self) -> u64 {
+        self.0
+    }
+}
+
+/// A word-at-a-time hasher in the style of FxHash: `write` consumes 8 octets
+/// per step (the last word zero-padded), `write_u8` one word per octet.
+#[derive(Clone, Default)]
+pub(crate) struct WordHasher(u64);
+
+impl WordHasher {
+    fn add(&mut self, word: u64) {
+        self.0 = (self.0.rotate_left(5) ^ word).wrapping_mul(0x517c_c1b7_2722_0a95);
+    }
+}
+
+impl Hasher for WordHasher {
+    fn write(&mut self, bytes: &[u8]) {
+        for chunk in bytes.chunks(8) {
+            let mut w = [0u8; 8];
+            w[..chunk.len()].copy_from_slice(chunk);
+            self.add(u64::from_le_bytes(w));
+        }
+    }
+    fn write_u8(&mut self, i: u8) {
+        self.add(u64::from(i))
+    }
+    fn write_u16(&mut self, i: u16) {
+        self.add(u64::from(i))
+    }
+    fn write_u32(&mut self, i: u32) {
+        self.add(u64::from(i))
+    }
+    fn write_u64(&mut self, i: u64) {
+        self.add(i)
+    }
+    fn write_usize(&mut self, i: usize) {
+        self.add(i as u64)
+    }
+    fn finish(&self) -> u64 {
+        self.0
+    }
+}
+
+/// The hashes of one value under four hashers: two pure octet-stream
+/// hashers (the engine's FNV, std's SipHash with its fixed keys) and two for
+/// which the chopping of the input into `Hasher` calls matters (call
+/// sequence hasher, word-at-a-time hasher).
+pub(crate) fn h2<T: Hash + ?Sized>(x: &T) -> (u64, u64, u64, u64) {
     let mut f = Fnv::default();
     x.hash(&mut f);
     let mut s = DefaultHasher::new();
     x.hash(&mut s);
-    (f.finish(), s.finish())
+    let mut c = CallSeqHasher::default();
+    x.hash(&mut c);
+    let mut w = WordHasher::default();
+    x.hash(&mut w);
+    (f.finish(), s.finish(), c.finish(), w.finish())
 }
+
+/// Which of the hashers of `h2` tell two values apart (for details).
+pub(crate) fn hdiff(a: (u64, u64, u64, u64), b: (u64, u64, u64, u64)) -> String {
+    let mut v = vec![];
+    if a.0 != b.0 {
+        v.push("fnv");
+    }
+    if a.1 != b.1 {
+        v.push("siphash");
+    }
+    if a.2 != b.2 {
+        v.push("call-sequence");
+    }
+    if a.3 != b.3 {
+        v.push("word-at-a-time");
+    }
+    format!("hashers that differ: {}", v.join(","))
+}
+
+pub(crate) type ChunkBuild = std::hash::BuildHasherDefault<CallSeqHasher>;
 
 /// RFC 4034 §6.1 on one label: octet strings, upper case treated as lower.
 pub(crate) fn ref_label_cmp(a: &[u8], b: &[u8]) -> Ordering {
@@ -154,13 +284,20 @@ fn health(c: &BTreeMap<String, u64>, thorough: bool) -> Result<(), String> {
             return Err(format!("class {k} starved ({} < {})", g(&k), floor / 2));
         }
     }
+    for t in rdata::field_pair_types() {
+        let k = format!("two-tweak-fields:{t}");
+        if g(&k) < floor / 20 {
+            return Err(format!("class {k} starved ({} < {})", g(&k), floor / 20));
+        }
+    }
     for k in [
-        "rel:identical", "rel:name-case", "rel:octet-tweak", "rel:two-tweak", "rel:field-resize", "rel:name-splice", "rel:tail", "rel:fresh", "rel:ascii-case", "rel:cross-type",
+        "rel:identical", "rel:name-case", "rel:octet-tweak", "rel:two-tweak", "rel:two-tweak-fields", "rel:field-resize", "rel:name-splice", "rel:tail", "rel:fresh", "rel:ascii-case", "rel:cross-type",
         "pair:equal-not-identical", "pair:differs-in-embedded-name", "pair:canonical-differs-eq-equal", "rdata-compressed-name",
         "owner-pointer", "record:ttl-differs-equal", "record:same-rrset", "record:class-differs", "record:owner-differs",
         "zone-enum", "typed-struct", "unknown:type-differs-same-data",
         "names:equal-diff-case", "names:boundary-variant", "names:prefix-or-parent", "names:parsed-with-pointer", "names:chain",
         "names:len>=250", "names:tweak-near-letter", "names:relative", "names:uncertain",
+        "names:boundary-same-wire-length", "names:boundary-same-wire-length:flat-vs-compressed", "names:borrow-lookup", "label:borrow-lookup",
         "label:case-pair", "label:prefix", "label:near-letter", "charstr:case-pair", "charstr:prefix", "charstr:len255",
     ] {
         if g(k) < 50 {
